@@ -12,11 +12,12 @@ from vf import mjw as H
 from vf.core import Reject, check_close, check_equal
 
 RULE = (
-  "case = one <flexcomp> (1D grid/circle 3-8 verts, 2D grid 3x3..5x5, 3D grid/box 2x2x2..3x3x3; dof=full vertex bodies, dof=2d/radial, dof=trilinear node bodies) under the "
+  "case = (3 in 4) one <flexcomp> (1D grid/circle 3-8 verts, 2D grid 3x3..5x5, 3D grid/box 2x2x2..3x3x3; dof=full vertex bodies, dof=2d/radial, dof=trilinear node bodies) under the "
   "world or under a jointed parent body, random spacing/mass/radius, one of {edge equality, strain equality (trilinear), elasticity young/poisson/damping/elastic2d, edge "
   "stiffness/damping, nothing}, pinned vertices, selfcollide none/narrow/bvh/sap/auto, optionally one colliding plane/sphere/capsule/box (static or on a free body) placed at a drawn "
   "penetration under a drawn vertex, condim 1/3/4/6, margin, both cones, dense/sparse, Newton/CG x random small deformation (qpos, qvel; optional fold that brings two non-adjacent "
-  "vertices within a radius) in 1-2 worlds with different states. oracle = mj_forward on the float32-rounded state: flexvert_xpos; flexedge_length/velocity/J where MuJoCo computes "
+  "vertices within a radius) in 1-2 worlds with different states; (1 in 4) a hand-written <deformable><flex> (dim 1 chain / dim 2 triangle strip) over 3-5 user bodies with "
+  "free/ball/hinge/3-slide/no joints in separate kinematic trees, vertices offset from the body frames, optionally two vertices on one body, edge equality or elasticity with damping, random poses and velocities. oracle = mj_forward on the float32-rounded state: flexvert_xpos; flexedge_length/velocity/J where MuJoCo computes "
   "them; qfrc_spring/damper/passive; ne and the flex equality rows (J,pos,vel,D,aref, matched per equality); flex contacts as a multiset keyed by (geom,flex,elem,vert) per side: "
   "exact for flex-plane (dist/pos/normal/params); presence, deepest penetration, normal orientation and parameters (MuJoCo contacts without an MJWarp contact nearby reported under their own signature) for "
   "non-plane geoms and self-collision; all constraint rows when the contact sets are identical (qacc is recorded as a statistic only). one evaluation = one world compared; non-trivial = MuJoCo reports >=1 "
@@ -108,6 +109,12 @@ def strategy(tier):
       sigma=st.sampled_from([0.0, 0.003, 0.01, 0.03]),
       vel=st.sampled_from([0.0, 0.3, 1.0]),
       fold=st.sampled_from([False, False, True]),
+      # hand-written <deformable><flex> over user bodies with free / ball / hinge / slide joints in separate kinematic trees, vertices offset from the body frames
+      raw=st.sampled_from([0, 0, 0, 1]),
+      raw_n=st.integers(3, 5),
+      raw_joints=st.lists(st.sampled_from(["free", "free", "ball", "hinge", "slide", "none"]), min_size=5, max_size=5),
+      raw_dim=st.sampled_from([1, 2, 2]),
+      raw_share=st.booleans(),
     )
   )
 
@@ -212,7 +219,54 @@ def _geom_xml(case, info, vx):
   return f'{body} pos="{c[0]:.6f} {c[1]:.6f} {c[2]:.6f}" euler="{eul}"/>'
 
 
+def _raw_xml(case):
+  """<deformable><flex> on user bodies: the vertex bodies carry rotational dofs (free/ball/hinge), sit in different trees and the vertices are offset from the body origins."""
+  g = np.random.default_rng(int(case["seed"]) + 99)
+  n = int(case["raw_n"])
+  dim = int(case["raw_dim"])
+  joints = list(case["raw_joints"])[:n]
+  if all(j == "none" for j in joints):
+    joints[0] = "free"
+  bodies, names = [], []
+  for i, j in enumerate(joints):
+    pos = np.array([0.3 * i, 0.0, 1.0]) + g.uniform(-0.12, 0.12, 3)
+    jx = {"free": "<freejoint/>", "ball": '<joint type="ball"/>', "hinge": f'<joint type="hinge" axis="{g.normal():.4f} {g.normal():.4f} 1"/>',
+          "slide": '<joint type="slide" axis="1 0 0"/><joint type="slide" axis="0 1 0"/><joint type="slide" axis="0 0 1"/>', "none": ""}[j]
+    bodies.append(f'<body name="b{i}" pos="{pos[0]:.5f} {pos[1]:.5f} {pos[2]:.5f}">{jx}<geom type="box" size=".04 .03 .05" mass="{g.uniform(0.1, 0.5):.4f}" contype="0" conaffinity="0"/></body>')
+    names.append(f"b{i}")
+  vb = list(names)
+  if case["raw_share"]:
+    vb.append(names[int(g.integers(0, n - 2))])  # two vertices on one body, never joined by an edge (MuJoCo's compiler crashes on an edge inside one body)
+  nv_ = len(vb)
+  verts = g.uniform(-0.08, 0.08, (nv_, 3))
+  if dim == 1:
+    elems = [(i, i + 1) for i in range(nv_ - 1)]
+  else:
+    elems = [(i, i + 1, i + 2) for i in range(nv_ - 2)]
+  mode = {"edge": "none", "strain": "equality"}.get(case["mode"], case["mode"])
+  if dim == 1 and mode == "elastic":
+    mode = "equality"
+  inner = ""
+  if mode == "elastic":
+    inner = f'<elasticity young="{case["young"]}" poisson="{float(case["poisson"]):.6f}" damping="{case["edamp"]}" thickness="{case["thickness"]}" elastic2d="{case["elastic2d"]}"/>'
+  radius = 0.01
+  flex = (
+    f'<flex name="f" dim="{dim}" body="{" ".join(vb)}" radius="{radius}" element="{" ".join(str(k) for e in elems for k in e)}" '
+    f'vertex="{" ".join(f"{x:.5f}" for x in verts.reshape(-1))}">{inner}<contact selfcollide="none" internal="false"/></flex>'
+  )
+  eq = '<equality><flex flex="f"/></equality>' if mode == "equality" else ""
+  dummy = '<geom name="dummy" type="sphere" size="0.01" pos="0 0 -5" contype="0" conaffinity="0"/>'
+  xml = (
+    f'<mujoco><option timestep="0.002" cone="{case["cone"]}" jacobian="{case["jacobian"]}" solver="{case["solver"]}" iterations="100" tolerance="1e-10"/>'
+    f'<size memory="50M"/><worldbody>{dummy}{"".join(bodies)}</worldbody><deformable>{flex}</deformable>{eq}</mujoco>'
+  )
+  return xml, dict(dim=dim, typ="raw", dof="raw:" + "+".join(sorted(set(joints))), interp=False, mode=mode, radius=radius, selfcollide="none", pins=[], moving=False, spacing=0.3)
+
+
 def build(case):
+  if case.get("raw"):
+    xml, info = _raw_xml(case)
+    return H.compile_xml(xml), info
   xml0, info = _flex_xml(case)
   if case["geom"]["kind"] == "none":
     return H.compile_xml(xml0), info
@@ -575,7 +629,7 @@ def check(case, rec):
   mjm, info = build(case)
   if mjm.nflex != 1 or mjm.nv == 0:
     raise Reject("no flex / nv=0")
-  if case["geom"]["kind"] == "none":
+  if case["geom"]["kind"] == "none" or case.get("raw"):
     # flex-only models (ngeom == 0) with a flex contact crash sensor_acc (_preprocess_tactile_contacts reads geom_bodyid[-1]): a dummy geom is always added
     rec.excluded["crash:tactile-preprocess-flex-contact"] += 1
   n = case["nworld"]
@@ -594,7 +648,7 @@ def check(case, rec):
     return
   dim = info["dim"]
   rec.cls(
-    f"dim:{dim}", f"type:{info['typ']}", f"dof:{info['dof']}", f"mode:{info['mode']}", f"selfcollide:{info['selfcollide']}", f"geom:{case['geom']['kind']}",
+    f"dim:{dim}", f"type:{info['typ']}", f"dof:{info['dof']}", f"mode:{info['mode']}", f"selfcollide:{info['selfcollide']}", f"geom:{'none' if case.get('raw') else case['geom']['kind']}", f"raw:{int(bool(case.get('raw')))}",
     f"geomfree:{bool(case['geom']['free'] and case['geom']['kind'] not in ('none', 'plane'))}", f"pins:{len(info['pins'])}", f"parent:{case['parent']}",
     f"cone:{case['cone']}", f"sparse:{bool(m.is_sparse)}", f"solver:{case['solver']}", f"nworld:{n}", f"folded:{folded}", f"condim:{case['condim']}",
   )  # fmt: skip
